@@ -2,6 +2,7 @@ import AggkitModel.Model.BridgeStore
 import AggkitModel.Properties.C01
 import AggkitModel.Properties.C08
 import AggkitModel.Generated.Schema
+import AggkitModel.Generated.SyncFacts
 set_option linter.unusedSectionVars false
 /-
 C04 — a reorg leaves the node exactly as if the dropped blocks had never been seen.
@@ -178,5 +179,12 @@ theorem C04_updatable_reorg (H : HashAlg α) (hinj : H.Inj) (n : Nat) (us1 us2 u
   · unfold getProof
     rw [getSiblings_spec H hinj n db.rht v.1 v.2 t2 hcz.1 hcz.2 p hpb]
     exact calcRoot_spec H n v.1 p hpb
+
+/-- what "the reorg was handled" rests on (regenerated from db/tx.go on every run): `Commit` reports every failure of the
+    underlying commit — a `Reorg` that returns nil has committed its deletes — and runs the commit callbacks only after it -/
+theorem C04_tx_code_facts :
+    Gen.SyncFacts.errToNil_dbTx = [] ∧
+    Gen.SyncFacts.txBody_Commit = "{ if err := s.SQLTxer.Commit(); err != nil { return err } for _, cb := range s.commitCallbacks { cb() } return nil }" := by
+  decide
 
 end Aggkit
